@@ -46,6 +46,45 @@ example : Spec.rel .in_ (.atom (.str ['a'])) (.list [.str ['a'], .str ['b']]) = 
 example : denoteTemplate "{0} < {1}".toList (.atom (.int 5)) (.atom (.int 5)) ≠
     Spec.rel .le (.atom (.int 5)) (.atom (.int 5)) := by decide
 
+/-- clauses without an op. Full statement: `∀ w r, Spec.word w r = some b → the emitted clause decides b`.
+Proved part: `not-null` and `empty` on every attribute value; `present` and `absent` on every value that is
+null or truthy. Missing: `present`/`absent` on an attribute that is there but falsy — the translator sends
+`present` to the same `present()` (truthiness) as `not-null`, and `absent` to the same `absent()` as `empty`
+(pinned by tests/test_c7n_to_cel.py and tests/test_c7nlib.py): known finding `present_is_truthiness`. -/
+theorem valueless_decision_partial (w : String) (o : Op) (hw : valuelessOp w = some o)
+    (p : String × String) (hp : p ∈ XlateTables.atomicOpMap) (ho : Op.ofName p.1 = some o)
+    (r : Val) (hr : (w = "present" ∨ w = "absent") → falsyNonNull r = false) (b : Bool)
+    (hs : Spec.word w r = some b) :
+    denoteTemplate p.2.toList r (.atom .null) = some b := by
+  rw [op_table_correct p hp o ho]
+  unfold valuelessOp at hw
+  unfold Spec.word at hs
+  by_cases h1 : w = "present"
+  · subst h1
+    have hf := hr (Or.inl rfl)
+    simp at hw hs; subst hw
+    simp only [Spec.rel]
+    cases b <;> cases r with
+    | atom a => cases a <;> simp_all [falsyNonNull, truthy, isNull]
+    | list xs => simp_all [falsyNonNull, truthy, isNull]
+  by_cases h2 : w = "absent"
+  · subst h2
+    have hf := hr (Or.inr rfl)
+    simp at hw hs; subst hw
+    simp only [Spec.rel]
+    cases b <;> cases r with
+    | atom a => cases a <;> simp_all [falsyNonNull, truthy, isNull]
+    | list xs => simp_all [falsyNonNull, truthy, isNull]
+  by_cases h3 : w = "not-null"
+  · subst h3; simp at hw hs; subst hw; simp [Spec.rel, hs]
+  by_cases h4 : w = "empty"
+  · subst h4; simp at hw hs; subst hw; simp [Spec.rel, ← hs]
+  · simp [h1, h2, h3, h4] at hs
+
+/-- the excluded case is a genuine difference: `value: present` on `k: ""` -/
+example : Spec.word "present" (.atom (.str [])) = some true ∧
+    denoteTemplate "present({0})".toList (.atom (.str [])) (.atom .null) = some false := by decide
+
 /-! ### string literals -/
 
 /-- "every string taken from the policy appears as a CEL literal that evaluates back to exactly that
